@@ -42,7 +42,7 @@ def case_st(draw):
         op = draw(st.sampled_from(['add', 'add', 'add', 'add_over', 'remove_method', 'rm_remove']))
         ms = draw(st.lists(st.sampled_from(VERBS), min_size=0 if draw(st.integers(0, 19)) == 0 else 1, max_size=3, unique=True))
         events.append({'op': op, 'rule': draw(st.integers(0, len(asts) - 1)), 'methods': [spell(m, draw(st.integers(0, 7))) for m in ms],
-                       'as_str': draw(st.booleans())})
+                       'as_str': draw(st.booleans()), 'via_app': draw(st.booleans())})
         # requests are interleaved with the edits: an answer may not depend on what was answered before an edit
         for _ in range(draw(st.sampled_from([0, 0, 1, 2]))):
             events.append(req())
@@ -116,7 +116,10 @@ def check_case(ctx, case):
             tag = 't%d' % tagno[0]
             arg = stp['methods'][0] if (stp['as_str'] and len(stp['methods']) == 1) else list(stp['methods'])
             try:
-                router.add(text, arg, handler_for(tag), overwrite=over)
+                if stp.get('via_app'):
+                    app.route(text, method=arg, callback=handler_for(tag), overwrite=over)          # the decorator API of the application (same router behind it)
+                else:
+                    router.add(text, arg, handler_for(tag), overwrite=over)
                 accepted = True
             except Exception as e:
                 accepted = False
@@ -260,7 +263,7 @@ def run(ctx):
             for sub in itertools.combinations(regs, n):
                 reqs = [{'req': True, 'method': v, 'path': p, 'accept': acc} for v in ['GET', 'HEAD', 'POST', 'ANY', 'PUT', 'head', 'get'] for p in ['/r/1', '/nope']
                         for acc in (None, 'application/json')]
-                steps = [{'op': 'add', 'rule': 0, 'methods': [m], 'as_str': True} for m in sub] or [{'op': 'add', 'rule': 0, 'methods': [], 'as_str': False}]
+                steps = [{'op': 'add', 'rule': 0, 'methods': [m], 'as_str': True, 'via_app': n % 2 == 0} for m in sub] or [{'op': 'add', 'rule': 0, 'methods': [], 'as_str': False, 'via_app': True}]
                 # afterwards every method is removed one by one, with the full request set after each removal
                 tail = []
                 for m in sub:
